@@ -55,6 +55,7 @@ def cases(ctx):
                         'options': ['canonicalize_roles', 'reify_edges'],
                         'input': '(a / 7 :ARG1 (f / 7 :name a) :mod-of f :foo f)\n'}
     n = 450 if q else 9000
+    ctx.new_phase()
     for i in range(n):
         if not ctx.time_left():
             break
